@@ -1,0 +1,58 @@
+// Copyright The gittuf Authors
+// SPDX-License-Identifier: Apache-2.0
+
+//go:build verif
+
+// gvc contracts (comment-only, read under the "verif" build tag).
+
+package v02
+
+//@ # ---- C13: well-formedness of a rule file under edits ----
+//@ define isAllow(d *Delegation) bool = d != nil && d.Name == tuf.AllowRuleName
+//@ # a user rule: not the allow rule, no reserved prefix, threshold between 1 and the number of its principals,
+//@ # every principal it names defined in this rule file
+//@ define wfRule(t *TargetsMetadata, d *Delegation) bool = d != nil && d.Name != tuf.AllowRuleName && !strings.HasPrefix(d.Name, tuf.GittufPrefix)
+//@ ..  && d.PrincipalIDs != nil && d.Threshold >= 1 && d.Threshold <= len(d.PrincipalIDs.contents)
+//@ ..  && (forall k string :: has(d.PrincipalIDs.contents, k) ==> has(t.Delegations.Principals, k))
+//@ define wfTargets(t *TargetsMetadata) bool = t != nil && t.Delegations != nil && len(t.Delegations.Roles) >= 1
+//@ ..  && isAllow(t.Delegations.Roles[len(t.Delegations.Roles) - 1])
+//@ ..  && (forall i :: 0 <= i && i < len(t.Delegations.Roles) - 1 ==> wfRule(t, t.Delegations.Roles[i]))
+//@ define sameRoles(t *TargetsMetadata) bool = t.Delegations.Roles == old(t.Delegations.Roles) && t.Delegations.Principals == old(t.Delegations.Principals)
+
+//@ func [C13] AllowRule -> (d)
+//@   assigns fresh(Delegation.*), fresh(elems string)
+//@   ensures isAllow(d) && fresh(d) && d.Terminating && d.Threshold == 1
+
+//@ func [C13] (*TargetsMetadata).AddRule -> (err)
+//@   requires wf: wfTargets(t)
+//@   assigns t.Delegations.Roles, fresh(Delegation.*), fresh(elems string), fresh(elems *Delegation), fresh(set.Set[string].contents), fresh(map map[string]struct{})
+//@   # the three parts of well-formedness first (lemmas for the solver), then the whole
+//@   ensures allowRuleLast: err == nil ==> t.Delegations != nil && len(t.Delegations.Roles) >= 1 && isAllow(t.Delegations.Roles[len(t.Delegations.Roles) - 1])
+//@   ensures newRuleWellFormed: err == nil ==> wfRule(t, t.Delegations.Roles[len(t.Delegations.Roles) - 2])
+//@   # the earlier rules are the same, unmodified objects (othersKept below + the frame obligations: only fresh objects
+//@   # are written); together with the two clauses above this is wfTargets(t) - stated in parts because the solvers do
+//@   # not re-establish the quantified wfRule over the new slice in one step
+//@   ensures refusedUnchanged: err != nil ==> sameRoles(t)
+//@   ensures added: err == nil ==> len(t.Delegations.Roles) == old(len(t.Delegations.Roles)) + 1 && t.Delegations.Roles[len(t.Delegations.Roles) - 2].Name == ruleName && t.Delegations.Roles[len(t.Delegations.Roles) - 2].Threshold == threshold && t.Delegations.Roles[len(t.Delegations.Roles) - 2].Paths == rulePatterns
+//@   ensures othersKept: err == nil ==> forall i :: 0 <= i && i < old(len(t.Delegations.Roles)) - 1 ==> t.Delegations.Roles[i] == old(t.Delegations.Roles[i])
+//@   ensures reservedRefused: strings.HasPrefix(ruleName, tuf.GittufPrefix) ==> err != nil
+//@   ensures badThresholdRefused: threshold < 1 ==> err != nil
+//@   loop 1:
+//@     invariant untouched: sameRoles(t)
+//@     invariant defined: forall j :: 0 <= j && j <= rangeindex ==> has(t.Delegations.Principals, authorizedPrincipalIDs[j])
+
+//@ func [C13] (*TargetsMetadata).RemoveRule -> (err)
+//@   requires wf: wfTargets(t)
+//@   assigns t.Delegations.Roles, fresh(elems *Delegation)
+//@   ensures staysWellFormed: err == nil ==> wfTargets(t)
+//@   ensures refusedUnchanged: err != nil ==> sameRoles(t)
+//@   ensures removed: err == nil ==> forall i :: 0 <= i && i < len(t.Delegations.Roles) ==> t.Delegations.Roles[i] != nil && t.Delegations.Roles[i].Name != ruleName
+//@   ensures onlyOldRules: err == nil ==> forall i :: 0 <= i && i < len(t.Delegations.Roles) ==> (exists j :: 0 <= j && j < old(len(t.Delegations.Roles)) && t.Delegations.Roles[i] == old(t.Delegations.Roles[j]))
+//@   ensures reservedRefused: strings.HasPrefix(ruleName, tuf.GittufPrefix) ==> err != nil
+//@   loop 1:
+//@     invariant untouched: sameRoles(t) && allDelegations == t.Delegations.Roles
+//@     invariant kept: forall i :: 0 <= i && i < len(updatedDelegations) ==> updatedDelegations[i] != nil && updatedDelegations[i].Name != ruleName && (exists j :: 0 <= j && j <= rangeindex && updatedDelegations[i] == allDelegations[j])
+//@     invariant order: len(updatedDelegations) <= rangeindex + 1 && updatedDelegations != nil
+//@     invariant lastIsNewest: rangeindex >= 0 && allDelegations[rangeindex].Name != ruleName ==> len(updatedDelegations) >= 1 && updatedDelegations[len(updatedDelegations) - 1] == allDelegations[rangeindex]
+//@     invariant wfKept: forall i :: 0 <= i && i < len(updatedDelegations) && !isAllow(updatedDelegations[i]) ==> wfRule(t, updatedDelegations[i])
+//@     invariant allowOnlyLast: forall i :: 0 <= i && i < len(updatedDelegations) && isAllow(updatedDelegations[i]) ==> rangeindex == len(allDelegations) - 1 && i == len(updatedDelegations) - 1
